@@ -206,6 +206,7 @@ struct ScriptRound {
     semaphore* s = nullptr;
     std::atomic<int> small_done{0}, head_done{0}, queued{0};
     std::atomic<thread*> head{nullptr};
+    std::atomic<join_handle*> head_jh{nullptr};      // the head is joinable: its thread object stays valid until the director joins it
 };
 static std::atomic<ScriptRound*> g_sr{nullptr};
 static std::atomic<int> g_script_blocked_small{0};
@@ -256,7 +257,7 @@ static int run_script_mode(vh::Rng& r, int nv, uint64_t rounds) {
                     seen = ph;
                     auto sr = g_sr.load(std::memory_order_acquire);
                     if (!sr) continue;
-                    if (place[0].load() == v) thread_create(script_head, sr, 128 * 1024);
+                    if (place[0].load() == v) sr->head_jh.store(thread_enable_join(thread_create(script_head, sr, 128 * 1024)), std::memory_order_release);
                     thread_yield();
                     if (place[1].load() == v) thread_create(script_small, sr, 128 * 1024);
                     if (place[2].load() == v) thread_create(script_small, sr, 128 * 1024);
@@ -271,7 +272,7 @@ static int run_script_mode(vh::Rng& r, int nv, uint64_t rounds) {
             g_sr.store(sr, std::memory_order_release);
             for (int k = 0; k < 3; ++k) place[k].store(r.below(nv));
             phase.fetch_add(1, std::memory_order_acq_rel);
-            if (place[0].load() == 0) thread_create(script_head, sr, 128 * 1024);
+            if (place[0].load() == 0) sr->head_jh.store(thread_enable_join(thread_create(script_head, sr, 128 * 1024)), std::memory_order_release);
             // the head must be first in the queue
             while (sr->queued.load() < 1) thread_usleep(20);
             thread_usleep(100);
@@ -283,6 +284,8 @@ static int run_script_mode(vh::Rng& r, int nv, uint64_t rounds) {
             thread_usleep(r.range(0, 200));
             if (!sr->head_done.load()) thread_interrupt(sr->head.load(std::memory_order_acquire), EINTR);
             while (!sr->head_done.load() || sr->small_done.load() < 2) thread_usleep(50);   // supervisor watches this
+            while (!sr->head_jh.load(std::memory_order_acquire)) thread_usleep(20);
+            thread_join(sr->head_jh.load(std::memory_order_acquire));
             if (sr->s->count() != 0)
                 vh::violation("conservation/mismatch:inorder", "tokens left after both small waiters were served", vh::JObj().kv("count", sr->s->count()).str());
             c_script.add();
